@@ -148,7 +148,7 @@ PROPS = {
         explanation='the decoder-level half of the property, for all states: the case analysis of SourceBlockDecoder::decode (too few / all source / solve), the ISI list and D vector handed to the solver, '
                     'the GF(2)-only attempt exactly when S + |isis| >= L, its Some returned, and on None ALWAYS the standard solve (never gives up through the fast path); the answer is a function of the received state alone '
                     '(the `decoded` flag is write-only), so it is re-evaluated on the full accumulated set at every call; the matrix handed to the solver: generate_constraint_matrix and generate_constraint_matrix_no_hdpc build, for all K and all ISI lists, exactly the binary part of the RFC 5.3.3.3 matrix (G_LDPC,1 | I_S | G_LDPC,2 rows, zero HDPC gap, one G_ENC row per received ISI with ones at the 5.3.5.3 index walk) (V-AMAT)',
-        assumptions=[SOLVER_ASSUMED, 'V-AMAT: BinaryMatrix reduced to new/set with the cell-level contract V-DENSE proves for the dense matrix (assumed for the sparse one); generate_hdpc_rows (the GF(256) rows) external'],
+        assumptions=[SOLVER_ASSUMED, 'V-AMAT: BinaryMatrix reduced to new/set with the cell-level contract that V-DENSE proves for the dense matrix and V-SPMAT proves for the sparse one (both under C16); generate_hdpc_rows (the GF(256) rows) external'],
         not_decided=['rank exactness of the solver (Some iff the constraint matrix has full rank over GF(256)): NOT decided by this check; it is the assumed solver contract',
                      'generate_hdpc_rows (HDPC rows, GF(256) arithmetic with Rand) is not under contract']),
     'C08': dict(
